@@ -141,6 +141,20 @@ def gen_c03(tier, rng):
             msgs.append(proto.message(rng.getrandbits(64), rng.getrandbits(32), rng.getrandbits(8) & 0xB3, ty & 0xFF, body))
         fr = proto.frame_header(1, 1, mt, 1, 1) + b"".join(msgs)
         cases.append(Case("c03dec", ["dec d feed " + fr.hex(), "dec d access"], True, ("decoded",)))
+    # class confusion: a payload that is well-formed for ANOTHER class (or all zeros of every small length) travelling under each typed
+    # payload type; whatever is returned as valid must still expose only in-bounds data
+    for mt, kinds in ((1, ["can", "canfd", "lin", "eth", "analog"]), (3, ["cm", "if"])):
+        for k_type in kinds:
+            ops = []
+            for k_body in kinds:
+                for _r in range(3):
+                    _ty, body = proto.valid_payload(rng, k_body)
+                    m = proto.message(1, 2, 0, proto.TY[k_type] & 0xFF, body)
+                    ops += ["dec d feed " + (proto.frame_header(1, 1, mt, 1, 1) + m).hex(), "dec d access"]
+            for n in list(range(0, 48)):
+                m = proto.message(1, 2, 0, proto.TY[k_type] & 0xFF, bytes(n))
+                ops += ["dec d feed " + (proto.frame_header(1, 1, mt, 1, 1) + m).hex(), "dec d access"]
+            cases.append(Case("c03x", ops, True, (k_type, "class-confusion")))
     # TECMP-converted packets are built by the library's own builders: their accessors too
     frames = gen_dec.gen_tecmp_frames("quick", rng)
     for i in range(0, len(frames), 40):
